@@ -112,6 +112,78 @@ def extra_kill(tier, seed, bh, rh):
     return {"name": "validity-kill", "results": val["results"]}
 
 
+# ---------------------------------------------------------------------------------------- loopback
+KF1_DROP = {"cfg": {"allow_list": True, "usage": False, "blur": None}, "seed": 1, "events": [
+    {"k": "connect", "c": 1}, {"k": "cmd", "c": 1, "msg": {"type": "bind", "appid": "A", "side": "s"}},
+    {"k": "cmd", "c": 1, "msg": {"type": "open", "mailbox": "m"}},
+    {"k": "connect", "c": 2}, {"k": "cmd", "c": 2, "msg": {"type": "bind", "appid": "B", "side": "s"}},
+    {"k": "cmd", "c": 2, "msg": {"type": "open", "mailbox": "m"}},       # KF1: IntegrityError, the server drops connection 2
+    {"k": "cmd", "c": 1, "msg": {"type": "add", "phase": "p", "body": "00"}},
+    {"k": "connect", "c": 3}, {"k": "cmd", "c": 3, "msg": {"type": "bind", "appid": "A", "side": "t"}},
+    {"k": "cmd", "c": 3, "msg": {"type": "open", "mailbox": "m"}}, {"k": "disconnect", "c": 1}]}
+
+
+def _loop_job(args):
+    """the history to replay (generated in the calling process: world.World patches module attributes, which is
+    not thread-safe)"""
+    profile, seed = args
+    if profile == "kf1-drop":
+        return KF1_DROP
+    import gen as G, profiles as P
+    h = G.generate_history(seed, profile=P.get(profile), cfg=P.cfg_for(profile, seed))
+    return {"cfg": h["cfg"], "seed": seed, "events": h["events"]}
+
+
+def _loop_case(args):
+    profile, seed, job = args
+    out = {"seed": seed, "profile": "validity-loopback:" + profile, "n_events": 0, "div": None, "mon": {},
+           "nontrivial": {"C17": 0, "C02": 0}, "kf": [], "stale": [], "kinds": {}, "meta": {}, "no_model": True, "cfg": None}
+    try:
+        if isinstance(job, str):
+            out["harness_error"] = job
+            return out
+        out["cfg"] = job["cfg"]
+        env = dict(os.environ)
+        p = subprocess.run([sys.executable, os.path.join(HERE, "loopback.py")], input=json.dumps(job).encode(),
+                           stdout=subprocess.PIPE, stderr=subprocess.PIPE, timeout=300, env=env)
+        last = [l for l in p.stdout.decode("utf-8", "replace").split("\n") if l.startswith("{")]
+        if p.returncode != 0 or not last:
+            out["harness_error"] = "harness validity (loopback): loopback.py failed: " + p.stderr.decode("utf-8", "replace")[-1200:]
+            return out
+        r = json.loads(last[-1])
+        out["n_events"] = r["commands"]
+        out["nontrivial"]["C17"] = out["nontrivial"]["C02"] = r["frames"]
+        out["kinds"] = {"validity-loopback:frames": r["frames"], "validity-loopback:connections": r["connections"],
+                        "validity-loopback:dropped-by-server": r["dropped"], "validity-loopback:lost-on-abort": r["lost_on_abort"]}
+        if not r["ok"]:
+            out["harness_error"] = ("harness validity (loopback): frames received over real WebSocket connections differ from "
+                                    "those recorded by the direct-call driver: " + json.dumps(r["mismatch"])[:1500])
+        return out
+    except Exception:
+        return {"seed": seed, "profile": "validity-loopback", "harness_error": traceback.format_exc()}
+
+
+def extra_loopback(tier, seed, bh, rh):
+    import metamorphic as MM
+    from concurrent.futures import ThreadPoolExecutor
+    profiles = ["session", "malformed", "kf", "two-app", "discipline", "unicode", "crowd", "core"]
+    per = 2 if tier == "quick" else 12
+    tasks = [("kf1-drop", 0)] + [(p, seed * 15485863 + i) for p in profiles for i in range(per)]
+    def compute():
+        t0 = time.time()
+        jobs = []
+        for t in tasks:
+            try:
+                jobs.append(t + (_loop_job(t),))
+            except Exception:
+                jobs.append(t + ("harness validity (loopback): generating the history failed: " + traceback.format_exc()[-1500:],))
+        with ThreadPoolExecutor(12) as ex:
+            res = list(ex.map(_loop_case, jobs))
+        return {"results": res, "seconds": time.time() - t0}
+    val = MM.cached("validity-loopback-%d-%d-%s-%s" % (len(tasks), seed, bh[:12], rh[:16]), compute)
+    return {"name": "validity-loopback", "results": val["results"]}
+
+
 if __name__ == "__main__":
     what = sys.argv[1] if len(sys.argv) > 1 else "kill"
     if what == "kill":
